@@ -16,6 +16,31 @@ T = namedtuple("T", "kind uniq ref acq inc asg dirty ret facts")
 ACQ = ("Acquire", "AcqRel", "SeqCst")
 REL = ("Release", "AcqRel", "SeqCst")
 
+# library functions that return (a cast / offset of) the pointer or reference they are given
+PTR_TRANSPARENT = (
+    "core::ptr::from_ref", "core::ptr::from_mut",
+    "core::ptr::const_ptr::<impl *const T>::cast", "core::ptr::const_ptr::<impl *const T>::cast_mut", "core::ptr::const_ptr::<impl *const T>::cast_const",
+    "core::ptr::mut_ptr::<impl *mut T>::cast", "core::ptr::mut_ptr::<impl *mut T>::cast_const", "core::ptr::mut_ptr::<impl *mut T>::cast_mut",
+    "core::ptr::non_null::NonNull::<T>::cast", "core::ptr::non_null::NonNull::<T>::as_ptr",
+    "core::ptr::non_null::NonNull::<T>::new_unchecked", "core::ptr::non_null::NonNull::<T>::from_ref", "core::ptr::non_null::NonNull::<T>::from_mut",
+)
+# bitwise read of a pointee: (callee) -> index of the source pointer argument
+READ_PRIMS = {"core::ptr::read": 0, "core::ptr::const_ptr::<impl *const T>::read": 0, "core::ptr::mut_ptr::<impl *mut T>::read": 0,
+              "core::ptr::non_null::NonNull::<T>::read": 0, "core::ptr::read_unaligned": 0}
+# writes through a pointer / slice: callee -> index of the DESTINATION argument
+WRITE_PRIMS = {
+    "core::ptr::write": 0, "core::ptr::write_bytes": 0, "core::ptr::copy": 1, "core::ptr::copy_nonoverlapping": 1,
+    "core::intrinsics::copy": 1, "core::intrinsics::copy_nonoverlapping": 1,
+    "core::ptr::mut_ptr::<impl *mut T>::write": 0, "core::ptr::mut_ptr::<impl *mut T>::write_bytes": 0,
+    "core::ptr::mut_ptr::<impl *mut T>::copy_from": 0, "core::ptr::mut_ptr::<impl *mut T>::copy_from_nonoverlapping": 0,
+    "core::ptr::mut_ptr::<impl *mut T>::copy_to": 1, "core::ptr::mut_ptr::<impl *mut T>::copy_to_nonoverlapping": 1,
+    "core::ptr::const_ptr::<impl *const T>::copy_to": 1, "core::ptr::const_ptr::<impl *const T>::copy_to_nonoverlapping": 1,
+    "core::ptr::non_null::NonNull::<T>::write": 0, "core::ptr::non_null::NonNull::<T>::copy_from_nonoverlapping": 0,
+    "core::ptr::non_null::NonNull::<T>::copy_from": 0, "core::ptr::non_null::NonNull::<T>::copy_to_nonoverlapping": 1, "core::ptr::non_null::NonNull::<T>::copy_to": 1,
+    "core::slice::<impl [T]>::copy_from_slice": 0, "core::slice::<impl [T]>::clone_from_slice": 0, "core::slice::<impl [T]>::fill": 0,
+    "core::char::methods::<impl char>::encode_utf8": 1,
+}
+
 VIEW_FNS = {
     "repr::Repr::as_heap_buffer": "H", "repr::Repr::as_heap_buffer_mut": "H",
     "repr::Repr::as_static_buffer": "S", "repr::Repr::as_static_buffer_mut": "S",
@@ -190,12 +215,13 @@ class Solver:
             a0 = self.canon(body, tracked, args[0], depth + 1) if args else None
             if n in VIEW_FNS and a0 == "self":
                 return "self"
+            if n in PTR_TRANSPARENT and a0 is not None:
+                return a0
             if n == "repr::heap_buffer::HeapBuffer::reference_count" and a0 == "self":
                 return "counter"
             if n == "repr::heap_buffer::HeapBuffer::header" and a0 == "self":
                 return "header"
-            if n == "repr::heap_buffer::HeapBuffer::allocation" and a0 == "self":
-                return "alloc"
+
             if n in ("core::ptr::NonNull::<T>::as_ptr", "core::ptr::non_null::NonNull::<T>::as_ptr") and a0 == "bufptr":
                 return "bufptr"
             if (n.startswith("core::ptr::mut_ptr::<impl *mut T>::") or n.startswith("core::ptr::const_ptr::<impl *const T>::")) and a0 in ("bufptr", "alloc"):
@@ -336,7 +362,7 @@ class Solver:
                 if hb is not None:
                     ht = body.term(hb)
                     hn = callee_name(ht)
-                    if hn in ("repr::heap_buffer::HeapBuffer::new", "repr::heap_buffer::HeapBuffer::with_additional", "repr::heap_buffer::HeapBuffer::with_capacity"):
+                    if hn in ("repr::heap_buffer::HeapBuffer::new", "repr::heap_buffer::HeapBuffer::with_additional", "repr::heap_buffer::HeapBuffer::with_capacity", "repr::heap_buffer::HeapBuffer::with_exact_capacity"):
                         vp = False
                         if hn != "repr::heap_buffer::HeapBuffer::with_capacity":
                             vp = self.is_text_of_self(body, tracked, body.origin_operand(ht["args"][0]))
@@ -359,6 +385,15 @@ class Solver:
         if src:
             t = body.term(src[0])
             n = callee_name(t)
+            if n.startswith("core::result::Result::<T, E>::map") and len(t["args"]) == 2:
+                # HeapBuffer::new(..).map(Repr::from_heap)? : classify through the mapped constructor
+                f = strip_refs(body.origin_operand(t["args"][1]))
+                inner = strip_refs(body.origin_operand(t["args"][0]))
+                if f[0] == "fn" and (f[3] or f[1]) == "repr::Repr::from_heap" and inner[0] == "call":
+                    hn = callee_name(body.term(inner[1]))
+                    if hn in ("repr::heap_buffer::HeapBuffer::new", "repr::heap_buffer::HeapBuffer::with_additional", "repr::heap_buffer::HeapBuffer::with_capacity", "repr::heap_buffer::HeapBuffer::with_exact_capacity"):
+                        vp = hn != "repr::heap_buffer::HeapBuffer::with_capacity" and self.is_text_of_self(body, tracked, body.origin_operand(body.term(inner[1])["args"][0]))
+                        return ([("H", True)], vp, hn)
             if n == "repr::Repr::from_str":
                 vp = self.is_text_of_self(body, tracked, body.origin_operand(t["args"][0]))
                 return ([("I", True), ("H", True)], vp, n)
@@ -384,7 +419,7 @@ class Solver:
     # ------------------------------------------------------------------ the solver
     def summary(self, body, tracked, t0):
         """-> list of (cls, T) where cls in 'Ok','Err',True,False,'?','unwind',None"""
-        key = (body.path, tracked, t0.kind, t0.uniq, t0.ref, t0.acq, t0.inc, dict(t0.facts).get("lenheap"), self.pclass_stack[-1])
+        key = (body.path, tracked, t0.kind, t0.uniq, t0.ref, t0.acq, t0.inc, dict(t0.facts).get("lenheap"), self.pclass_stack[-1], len(self.entry_stack) == 0)
         if key in self.summaries:
             res, ev = self.summaries[key]
             self.events_stack[-1].update(ev)
@@ -570,6 +605,17 @@ class Solver:
                 # normalise: constant on the right
                 flip = {"Eq": "Eq", "Ne": "Ne", "Lt": "Gt", "Le": "Ge", "Gt": "Lt", "Ge": "Le"}
                 op, a, b, ca, cb = flip[op], b, a, cb, ca
+            # (x - c1) == c2  <=>  x == c1 + c2   (also written x.wrapping_sub(c1) == c2)
+            if cb is not None and op in ("Eq", "Ne"):
+                if a[0] == "call" and callee_name(body.term(a[1])).endswith("::wrapping_sub"):
+                    wa = [strip_refs(body.origin_operand(x)) for x in body.term(a[1])["args"]]
+                    c1 = self.eval_int(wa[1]) if len(wa) == 2 else None
+                    if c1 is not None:
+                        a, cb = wa[0], cb + c1
+                elif a[0] == "bin" and a[1] in ("Sub", "SubUnchecked") and self.eval_int(strip_refs(a[3])) is not None:
+                    a, cb = strip_refs(a[2]), cb + self.eval_int(strip_refs(a[3]))
+                elif a[0] == "field" and a[1][0] == "bin" and a[1][1] == "SubWithOverflow" and a[2] == 0 and self.eval_int(strip_refs(a[1][3])) is not None:
+                    a, cb = strip_refs(a[1][2]), cb + self.eval_int(strip_refs(a[1][3]))
             if cb is not None and a[0] == "call":
                 tt = body.term(a[1])
                 n = callee_name(tt)
@@ -654,8 +700,7 @@ class Solver:
     def _repair(self, s):
         """after a violation was reported at an exit, hand callers a consistent tuple so the same
         defect is not reported again up the call chain"""
-        entry = self.entry_stack[-1]
-        if entry.ref != "own" or entry.inc or self.body_stack[-1] in self.FREES:
+        if len(self.entry_stack) > 1:
             return s
         if s.ret == "Err" and s.dirty:
             # reported as R-erratomic in this frame; callers see a clean failure
@@ -672,13 +717,10 @@ class Solver:
     def _exit_checks(self, body, tracked, bb, s, how):
         if s.kind == "U":
             return
-        entry = self.entry_stack[-1]
-        if entry.ref != "own" or body.path in self.FREES:
-            # the frame was entered with an already released handle (a helper called between the
-            # decrement and the overwrite): the releasing frame is the responsible one
+        if len(self.entry_stack) > 1:
+            # nested frame: its exit state flows back to the caller through the summary; balance
+            # is judged where the API call returns (helper extraction must not matter)
             return
-        if entry.inc:
-            s = s._replace(inc=max(0, s.inc - entry.inc))
         site = "exit:%s" % how if how == "unwind" else "exit:return(%s)" % (s.ret if s.ret in ("Ok", "Err") else "-")
         bad = s.ref != "own"
         self.ob("R2", body, site, body.line(bb), not bad, how="ref=own",
@@ -861,7 +903,7 @@ class Solver:
             return
 
         # ---- bitwise duplication
-        if n == "core::ptr::read" and can and can[0] == "self":
+        if n in READ_PRIMS and can and can[READ_PRIMS[n]] == "self":
             out = set()
             for s in cur:
                 good = s.kind != "H" or s.inc >= 1
@@ -872,7 +914,7 @@ class Solver:
             return
 
         # ---- the allocator primitives on this handle's allocation
-        if n in ("alloc::alloc::dealloc", "alloc::alloc::realloc") and can and can[0] in ("alloc", "bufptr"):
+        if n in ("alloc::alloc::dealloc", "alloc::alloc::realloc") and can and can[0] in ("alloc", "bufptr", "derived"):
             out = set()
             for s in cur:
                 if n.endswith("dealloc"):
@@ -889,9 +931,8 @@ class Solver:
             return
 
         # ---- library write primitives whose destination is memory reachable from the handle
-        if n in ("core::ptr::write", "core::ptr::copy", "core::ptr::copy_nonoverlapping", "core::ptr::write_bytes",
-                 "core::ptr::mut_ptr::<impl *mut T>::write", "core::intrinsics::copy", "core::intrinsics::copy_nonoverlapping"):
-            di = 0 if n.endswith("::write") or n.endswith("write_bytes") else 1
+        if n in WRITE_PRIMS:
+            di = WRITE_PRIMS[n]
             if di < len(can) and can[di] in ("derived", "header", "bufptr", "alloc", "self"):
                 out = set()
                 for s in cur:
@@ -1018,6 +1059,7 @@ class Solver:
     FOREIGN_OK = {
         # callee -> reason it cannot affect the ownership state of the handle it is given
         "core::ptr::read": "handled as DUP",
+        "core::ptr::from_ref": "pointer to the handle itself", "core::ptr::from_mut": "pointer to the handle itself",
         "core::ptr::const_ptr::<impl *const T>::": "pointer arithmetic / cast on the handle's own address (reads the two handle words, not the buffer)",
         "core::ptr::mut_ptr::<impl *mut T>::": "pointer arithmetic / cast on the handle's own address",
         "core::mem::size_of_val": "size query",
